@@ -116,6 +116,11 @@ def _walker(center, left, right, s):
 
 def _check_interp(steps, scheme, res, case_extra=None):
     center = _verts(steps)
+    moved = None
+    if scheme.startswith("moved:"):
+        # the lanelet is constructed and QUERIED (distance table, one interpolation), then moved with translate_rotate, and everything is checked
+        # against the moved geometry.  grow / skew boundaries are not symmetric about the centre line (the centre is not their midpoint)
+        scheme, moved = scheme.split(":")[1], ((7.0, -3.0), {"const": math.pi / 2, "grow": 0.5, "skew": -2.0}[scheme.split(":")[1]])
     left, right = _bounds(center, "const" if scheme in ("3d", "setters", "3d-flattened", "far-small") else scheme)
     if scheme == "far-small":
         # a densely sampled lanelet far from the origin (UTM-like coordinates): vertices 0.1 .. 1 m apart at coordinates of several 1e4 m
@@ -138,18 +143,34 @@ def _check_interp(steps, scheme, res, case_extra=None):
             ll.convert_to_2d()
         else:
             ll = _mk_lanelet(center, left, right, 1, dtype=int if scheme == "int" else float)
+        if moved is not None:
+            import numpy as np
+            case["scheme"] = "moved:" + scheme
+            _ = ll.distance; ll.interpolate_position(0.5 * float(ll.distance[-1]))
+            ll.translate_rotate(np.array(moved[0]), moved[1])
+            co, si = math.cos(moved[1]), math.sin(moved[1])
+            center0 = center
+            # (documented order: translate first, then rotate about the origin)
+            center, left, right = ([(co * (x + moved[0][0]) - si * (y + moved[0][1]), si * (x + moved[0][0]) + co * (y + moved[0][1])) for x, y in P] for P in (center, left, right))
+            for nm, got, exp in (("center", ll.center_vertices, center), ("left", ll.left_vertices, left), ("right", ll.right_vertices, right)):
+                res.evals += 1
+                if got.shape != (len(exp), 2) or any(abs(a - b) > 1e-9 * (1 + abs(b)) for g, e in zip(got.tolist(), exp) for a, b in zip(g, e)):
+                    res.violation(f"C20|translate_rotate|{nm}-vertices-not-the-moved-polyline", f"{case}: got {got.tolist()} expected {exp}", case)
+                    return
         dist = [float(x) for x in ll.distance]
     except Exception as e:
         res.violation(f"C20|distance|raises:{type(e).__name__}", repr(e), case)
         return
     res.transitions += 1
-    _, seg = _walker(center, left, right, 0.0)
+    # (arc lengths of a moved lanelet: those of the polyline it was constructed with - a rigid motion preserves them, and the query values
+    #  must not exceed the lanelet's own length by rounding of the moved coordinates)
+    _, seg = _walker(center0 if moved is not None else center, left, right, 0.0)
     cum = [0.0]
     for L in seg:
         cum.append(cum[-1] + L)
     res.evals += 1
     if len(dist) != len(cum) or dist[0] != 0 or any(dist[i + 1] < dist[i] for i in range(len(dist) - 1)) or \
-            any(abs(a - b) > 1e-12 * (1 + b) for a, b in zip(dist, cum)):
+            any(abs(a - b) > (1e-12 if moved is None else 1e-9) * (1 + b) for a, b in zip(dist, cum)):
         res.violation("C20|distance|wrong-cumulative", f"{dist} expected {cum}", case)
     svals = set([0.0, cum[-1]])
     for i, L in enumerate(seg):
@@ -337,11 +358,36 @@ def _check_graph(n, mask, edges, lens, res):
             return
         succ2 = {i: [j for j in succ[i] if j != n] for i in range(1, n)}
         _graph_queries(net2, n, edges, lens, succ2, None, list(range(1, n)), [15, 1000], res, "after-removal:")
+        # the network reached by REPLACING lanelet 2 under its id: the lanelet is looked up (inspected), removed, a lanelet of another length and
+        # without outgoing links is added under the same id, and the links into it are restored on the lanelet objects the caller kept.
+        # The searches start from kept objects (no lookup by the harness in between): chains and lengths are those of the network as it is now
+        x = 2
+        net3 = LaneletNetwork.create_from_lanelet_list([_mk_lanelet([(0, 10.0 * i), (lens[i - 1], 10.0 * i)], [(0, 10.0 * i + 1), (lens[i - 1], 10.0 * i + 1)],
+                                                                      [(0, 10.0 * i - 1), (lens[i - 1], 10.0 * i - 1)], i, pred=pred[i], succ=succ[i]) for i in range(1, n + 1)])
+        case3 = {"k": "graph", "n": n, "edges": [list(e_) for e_ in edges], "lens": list(lens)}
+        try:
+            kept = {i: net3.find_lanelet_by_id(i) for i in range(1, n + 1) if i != x}
+            _ = net3.find_lanelet_by_id(x).distance
+            net3.remove_lanelet(x)
+            lens3 = list(lens); lens3[x - 1] = 10.0 if lens[x - 1] != 10.0 else 30.0
+            newx = _mk_lanelet([(0, 10.0 * x), (lens3[x - 1], 10.0 * x)], [(0, 10.0 * x + 1), (lens3[x - 1], 10.0 * x + 1)], [(0, 10.0 * x - 1), (lens3[x - 1], 10.0 * x - 1)], x,
+                               pred=[p for p in pred[x] if p != x], succ=[])
+            net3.add_lanelet(newx)
+            for i in kept:
+                kept[i].successor = list(succ[i])
+            kept[x] = newx
+        except Exception as e:
+            res.violation(f"C20|after-replacement|setup-raises:{type(e).__name__}", repr(e), case3)
+            return
+        succ3 = {i: (list(succ[i]) if i != x else []) for i in range(1, n + 1)}
+        pred3 = {i: [p for p in pred[i] if p != x or i == x] for i in range(1, n + 1)}
+        pred3[x] = [p for p in pred[x] if p != x]
+        _graph_queries(net3, n, edges, lens3, succ3, pred3, list(range(1, n + 1)), [15, 25, 1000], res, "after-replacement:", objs=kept)
 
 
-def _graph_queries(net, n, edges, lens, succ, pred, starts, ranges, res, tag):
+def _graph_queries(net, n, edges, lens, succ, pred, starts, ranges, res, tag, objs=None):
     for start in starts:
-        ll = net.find_lanelet_by_id(start)
+        ll = net.find_lanelet_by_id(start) if objs is None else objs[start]
         for direction, rel, fn in (("successors", succ, ll.find_lanelet_successors_in_range),
                                    ("predecessors", pred, ll.find_lanelet_predecessors_in_range)):
             if rel is None:
@@ -396,7 +442,7 @@ def run_unit(unit, tier):
     if k == "interp":
         pl = _polylines(unit["ms"])[unit["lo"]:unit["hi"]]
         for steps in pl:
-            for scheme in OFFS + ["int", "3d", "setters", "3d-flattened", "far-small"]:
+            for scheme in OFFS + ["int", "3d", "setters", "3d-flattened", "far-small", "moved:const", "moved:grow", "moved:skew"]:
                 _check_interp(steps, scheme, res)
             res.sample({"k": "interp", "steps": steps}, 2)
     elif k == "merge":
